@@ -271,14 +271,25 @@ fn replay(path: &str) -> i32 {
                 schedx::set_reduction(r["reduced"].as_bool().unwrap_or(true));
                 // learn the shared-object set the search had, then replay
                 let mut run = |p: &[usize]| schedscn::run_once(&scn, cache, p);
-                for _ in 0..3 {
-                    let mut st = schedx::ExploreStats::default();
-                    let roots = schedx::frontier(&mut run, 1, &mut st);
-                    for root in roots {
-                        schedx::explore_subtree(&mut run, root, 1, 5_000, &mut st);
-                    }
+                // choice points are counted over the candidate objects: start from exactly the
+                // set the failing execution started with (older files: learn it again)
+                if let Some(ids) = r["shared"].as_array() {
+                    let ids: Vec<u64> = ids.iter().filter_map(|v| v.as_u64()).collect();
+                    schedx::reset_shared(&ids);
+                } else {
+                    let _ = vh::schedrun::warmup(&mut run);
                 }
-                let (_x, verdict) = schedscn::run_once(&scn, cache, &choices);
+                let n0 = schedx::shared_ids().len();
+                let (x, verdict) = schedscn::run_once(&scn, cache, &choices);
+                if std::env::var_os("VH_DEBUG").is_some() {
+                    eprintln!(
+                        "replay: candidate objects preloaded {n0}, after warm-up {}, choice points asked {} seen {}, diverged {}",
+                        schedx::shared_ids().len(),
+                        choices.len(),
+                        x.trace.len(),
+                        x.diverged
+                    );
+                }
                 verdict
             }
             other => Err(format!("no replayer for engine {other:?} (the typex/allocx/corruptx/compatx binaries replay their own cases)")),
